@@ -11,6 +11,26 @@ CHECKS = {
    "Every operation of the bit-mask layer is executed on the complete product of source offset 0..=130 x second offset 0..=130 x length 0..=200 (the property's own quantifier) x content patterns x surrounding-bit fillings x base misalignments and compared bit for bit with a Vec<bool> model, with canaries for bits outside the addressed range; builders are explored as histories (BFS, state = model contents). Exhaustive inside the stated bounds, nothing sampled.",
    "Trusted: the 10-line Vec<bool> reference semantics per operation; word closures are bitwise-local as the API documents; content alphabet is patterns + two fixed xorshift streams, not all 2^len contents (thorough adds all contents for len<=12).",
    "DESIGN.md section 4, C19"),
+ "C01": ("vk-compute", "exploration",
+   "bounded exhaustive enumeration of kernel pipelines (programs of depth <= 2) over an input universe of all small columns in every physical layout, every returned array checked by an independent spec validator",
+   "All programs k1 and k1|k2 over the kernel alphabet (selection, arithmetic, comparison, boolean, sort/rank/partition, cast, string, temporal, row format, dictionary gc; ~110 instantiated operations) are run from every array of U = 62 grid types x all columns of length <= 3 over a 4-letter alphabet plus null x every layout with <= 1 deviation (sliced at 7 offsets, validity buffer present/absent, garbage under nulls, non-zero first offset, padded values, dictionary permuted/duplicated/unused/null-valued, view buffers repartitioned, runs split, list-view children reordered/overlapping/gapped, union children permuted, misaligned base); stage outputs are passed on as produced. Every array any stage returns must satisfy vmodel::spec_validate (written from the Arrow format document) and ArrayData::validate_full. Exhaustive within these bounds; programs deeper than 2 and longer arrays are outside.",
+   "Trusted: vmodel::spec_validate. Format readers are monitored by their own checks (C04/C05/C08/C14/C17), not re-run here; the force_validate build variant is not built yet.",
+   "DESIGN.md section 4, C01"),
+ "C02": ("vk-compute", "exploration",
+   "bounded exhaustive enumeration of (type, column, layout) realisations with a layout-independent value model: accessor round trip, pairwise equality, kernel congruence across layouts, commutation with take/slice/concat",
+   "(a) extract(realise(col, layout)) == col, logical nulls, null counts and formatter text for 62 types x all columns (len <= 3) x all layouts with <= 2 deviations; (b) a1 == a2 iff the logical columns are equal for all pairs of (column of len <= 2, layout with <= 1 deviation) per type, also through ArrayData::eq; (c) each of ~110 kernels gives the same outcome class and the same extracted values on every layout of the same column as on the compact one (binary kernels with the other operand in compact and sliced layouts, both sides); (d) row-wise kernels commute with every index vector of length <= 2, every slice and every two-way concat split.",
+   "Trusted: vmodel realise/extract (validated by (a) itself: a bug in either shows up as a round-trip failure). == is compared with the model except for the dict-null-value layout (physical validity is documented to matter). Panics that occur on every layout alike are counted, not violations.",
+   "DESIGN.md section 4, C02"),
+ "C03": ("vk-compute", "model_checking",
+   "explicit-state BFS over BatchCoalescer push/filter/indices/finish/next histories against a row-id model, plus bounded exhaustive enumeration of selection-kernel arguments against naive row-by-row references",
+   "Kernels: filter (+optimized, sliced predicate), take (4 index types, nulls with out-of-range payload, duplicates, check_bounds), nullif, zip, slice, shift, concat, interleave, dictionary gc and the record-batch forms, for 62 types x all columns (len <= 3) x all layouts (<= 1 deviation) x every mask in {T,F,null}^n / every index vector of length <= 2 / every interleave list of length <= 2; structured filter families crossing the 0.8-selectivity, len/16 and 64-bit-word thresholds up to 1025 rows. Coalescer: BFS to depth 4 (6 thorough) over 32 operations for 5 schemas x target sizes {1,2,3,5} x bypass limit {None,2,4}; every transition runs on the real coalescer and is compared with the model (buffered rows, completed queue, emitted batches, exact batch sizes, final drain).",
+   "Trusted: the ten-line reference implementations on Vec<Val>. Union columns are excluded from null-index / shift / nullif (no validity of their own). With a bypass limit only the row sequence is checked, as the property states.",
+   "DESIGN.md section 4, C03"),
+ "C09": ("vk-compute", "exploration",
+   "bounded exhaustive enumeration of single mutilations of valid ArrayData against validating constructors, acceptance checked by an independent validator written from the Arrow format specification",
+   "For 62 types x all columns (len <= 2) x layouts (<= 1 deviation): every mutilation of a type-agnostic menu (len/offset +-1 and overflowing, buffer dropped/added/truncated by a byte or an element/misaligned, validity short/forbidden/wrong null_count, child dropped/added/retyped/shortened/lengthened, every cell of every offsets/sizes/keys/type-id/view/value buffer of the array and its children overwritten by each of 8 replacement values) is fed to ArrayData::try_new, ArrayDataBuilder::build (with and without align_buffers) and new_unchecked+validate_full; whatever is accepted must pass vmodel::spec_validate; RecordBatch::try_new(_with_options) trials.",
+   "Trusted: vmodel::spec_validate (it is never stricter than arrow-rs documents: arbitrary payload under nulls for dictionary keys, empty offsets for empty arrays). Only single mutilations; typed try_new constructors and the C Data Interface import path are not driven yet.",
+   "DESIGN.md section 4, C09"),
  "C16": ("vk-buffer", "model_checking",
    "explicit-state BFS over operation histories of the real buffer/array/FFI objects against a reference model, plus stateless enumeration of all thread schedules up to a preemption bound under a baton scheduler",
    "States are histories replayed on fresh real objects (Buffer, MutableBuffer, BooleanBuffer, Int32Array, exported/imported C Data Interface structs, bytes::Bytes) sharing one region of each allocation kind (Vec, MutableBuffer, custom owner, bytes crate); 19 operation kinds x handle index, BFS with canonical sharing-graph dedup to depth 6 (quick) / 8 (thorough). After every transition: each live handle still shows its snapshot, the custom owner's release counter is 0 while a handle is alive and 1 afterwards, FFI release callbacks ran once per export, pool.used() lies within the model of live claims, and at teardown everything is released exactly once. Thread part: every 2-3 thread program of 1-2 operations is run under all schedules with <= 2 (3) preemptions.",
